@@ -1,31 +1,37 @@
 ----------------------------- MODULE Minisanity -----------------------------
-(* C36.  The fit-quality diagnostics: for every sample of normalised residuals r (one key, Size entries; NaN is the marker
-   NaN == 99, exact zeros are ignored as well) the number of degrees of freedom is the number of entries that are neither NaN nor
+(* C36.  The fit-quality diagnostics: for every sample of normalised residuals r (one key, Size entries <<re, im>>; NaN is the marker
+   <<99, 0>>, Tiny = <<97, 0>> stands for a tiny non-zero number (2^-40 in the replay: it counts, its contribution is below the comparison
+   tolerance), exact zeros and NaNs are ignored) the number of degrees of freedom is the number of entries that are neither NaN nor
    exactly zero, the reduced chi-square is sum |r|^2 / ndof and the mean is sum r / ndof over those entries (0 if everything
    is ignored); the reported values are the sample average and the unbiased sample variance of these per-sample numbers, and the
    ignored entries are counted separately.  The placement of NaNs and zeros is the same in every sample (they come from the data /
-   from masks).  Everything is exact in Rat. *)
+   from masks).  Everything is exact in Rat.  Cplx = TRUE: Gaussian-integer residuals (the mean is complex). *)
 EXTENDS Rat, FiniteSets, Json
-CONSTANTS Size, NSamples, NVals
+CONSTANTS Size, NSamples, NVals, Cplx
 VARIABLES inst, res
 vars == <<inst, res>>
-NaN == 99
-Vals == IF NVals = 2 THEN {-1, 3} ELSE {-2, -1, 1, 3}
-Marks == {"v", "nan", "zero"}                                  \* per entry: a value, a NaN, an exact zero
+NaN == <<99, 0>>
+Tiny == <<97, 0>>
+Vals == IF Cplx THEN (IF NVals = 2 THEN {<<1, 1>>, <<0, -3>>} ELSE {<<1, 1>>, <<-2, 0>>, <<0, 3>>, <<1, -1>>})
+        ELSE (IF NVals = 2 THEN {<<-1, 0>>, <<3, 0>>} ELSE {<<-2, 0>>, <<-1, 0>>, <<1, 0>>, <<3, 0>>})
+Marks == IF Cplx THEN {"v", "nan", "zero"} ELSE {"v", "nan", "zero", "tiny"}          \* per entry: a value, a NaN, an exact zero, a tiny value
 Patterns == [1..Size -> Marks]
-Build(p, vs) == [i \in 1..Size |-> IF p[i] = "nan" THEN NaN ELSE IF p[i] = "zero" THEN 0 ELSE vs[i]]
-Used(s) == {i \in 1..Size : s[i] # NaN /\ s[i] # 0}
-SumOver(s, f(_)) == LET RECURSIVE S(_) S(T) == IF T = {} THEN 0 ELSE LET i == CHOOSE j \in T : TRUE IN f(s[i]) + S(T \ {i}) IN S(Used(s))
-Chi(s) == IF Used(s) = {} THEN Z(0) ELSE R(SumOver(s, LAMBDA x : x * x), Cardinality(Used(s)))
-Mean(s) == IF Used(s) = {} THEN Z(0) ELSE R(SumOver(s, LAMBDA x : x), Cardinality(Used(s)))
+Build(p, vs) == [i \in 1..Size |-> CASE p[i] = "nan" -> NaN [] p[i] = "zero" -> <<0, 0>> [] p[i] = "tiny" -> Tiny [] OTHER -> vs[i]]
+Used(s) == {i \in 1..Size : s[i] # NaN /\ s[i] # <<0, 0>>}
+Contrib(x) == IF x = Tiny THEN <<0, 0>> ELSE x
+SumOver(s, f(_)) == LET RECURSIVE S(_) S(T) == IF T = {} THEN 0 ELSE LET i == CHOOSE j \in T : TRUE IN f(Contrib(s[i])) + S(T \ {i}) IN S(Used(s))
+Chi(s) == IF Used(s) = {} THEN Z(0) ELSE R(SumOver(s, LAMBDA x : x[1] * x[1] + x[2] * x[2]), Cardinality(Used(s)))
+MeanRe(s) == IF Used(s) = {} THEN Z(0) ELSE R(SumOver(s, LAMBDA x : x[1]), Cardinality(Used(s)))
+MeanIm(s) == IF Used(s) = {} THEN Z(0) ELSE R(SumOver(s, LAMBDA x : x[2]), Cardinality(Used(s)))
 Avg(q) == RDiv(RSum(q, 1, Len(q)), Z(Len(q)))
 UVar(q) == IF Len(q) < 2 THEN Z(0)
            ELSE LET m == Avg(q) IN RDiv(RSum([k \in 1..Len(q) |-> RMul(RSub(q[k], m), RSub(q[k], m))], 1, Len(q)), Z(Len(q) - 1))
 Compute(samples) ==
   LET chis == [k \in 1..Len(samples) |-> Chi(samples[k])]
-      means == [k \in 1..Len(samples) |-> Mean(samples[k])]
+      means == [k \in 1..Len(samples) |-> MeanRe(samples[k])]
+      meansi == [k \in 1..Len(samples) |-> MeanIm(samples[k])]
       last == samples[Len(samples)]
-  IN [redchi |-> Avg(chis), redchivar |-> UVar(chis), mean |-> Avg(means), meanvar |-> UVar(means),
+  IN [redchi |-> Avg(chis), redchivar |-> UVar(chis), mean |-> Avg(means), meanim |-> Avg(meansi), meanvar |-> UVar(means),
       ndof |-> Cardinality(Used(last)), nign |-> Size - Cardinality(Used(last)),
       ok |-> /\ RLt(Z(-1), Avg(chis))                                           \* a mean of squares is not negative
              /\ Cardinality(Used(last)) + (Size - Cardinality(Used(last))) = Size]
@@ -38,6 +44,6 @@ Next == Choose \/ (inst.stage # "none" /\ UNCHANGED vars)
 Spec == Init /\ [][Next]_vars
 Law == res.ok
 RatJ(x) == [n |-> x[1], d |-> x[2]]
-Emit == inst.stage = "none" \/ PrintT(ToJson([samples |-> inst.samples, redchi |-> RatJ(res.redchi), redchivar |-> RatJ(res.redchivar), mean |-> RatJ(res.mean),
-                                               meanvar |-> RatJ(res.meanvar), ndof |-> res.ndof, nign |-> res.nign]))
+Emit == inst.stage = "none" \/ PrintT(ToJson([cplx |-> Cplx, samples |-> inst.samples, redchi |-> RatJ(res.redchi), redchivar |-> RatJ(res.redchivar), mean |-> RatJ(res.mean),
+                                               meanim |-> RatJ(res.meanim), meanvar |-> RatJ(res.meanvar), ndof |-> res.ndof, nign |-> res.nign]))
 =============================================================================
